@@ -208,17 +208,24 @@ fn verify_global_specs(g_specs: &[SideMetadataSpec]) -> Result<()> {
 #[cfg(mmtk_verif)]
 pub mod verif {
     use super::SideMetadataSpec;
+    // The error value is leaked on purpose: only the verdict is observed, and the drop glue of a
+    // boxed `dyn Error` is expensive for the symbolic executor.
+    fn verdict(r: super::Result<()>) -> bool {
+        let ok = r.is_ok();
+        std::mem::forget(r);
+        ok
+    }
     pub fn verify_no_overlap_contiguous(a: &SideMetadataSpec, b: &SideMetadataSpec) -> bool {
-        super::verify_no_overlap_contiguous(a, b).is_ok()
+        verdict(super::verify_no_overlap_contiguous(a, b))
     }
     pub fn verify_global_specs(specs: &[SideMetadataSpec]) -> bool {
-        super::verify_global_specs(specs).is_ok()
+        verdict(super::verify_global_specs(specs))
     }
     pub fn verify_global_specs_total_size(specs: &[SideMetadataSpec]) -> bool {
-        super::verify_global_specs_total_size(specs).is_ok()
+        verdict(super::verify_global_specs_total_size(specs))
     }
     pub fn verify_local_specs_size(specs: &[SideMetadataSpec]) -> bool {
-        super::verify_local_specs_size(specs).is_ok()
+        verdict(super::verify_local_specs_size(specs))
     }
 }
 
